@@ -128,6 +128,9 @@ pub enum Op {
     ListSetOwn(u8, u16, u16),
     /// insert a borrowed entry of the dict (the n-th key) under another key of the same dict
     DictInsertOwn(u8, u16, Txt),
+    /// insert, under an existing key (the n-th), a value that is `==` to the stored one but not the same value
+    /// (same Ref id with another display name, same instant in another zone); the third field is a scratch slot
+    DictInsertTwin(u8, u16, u8),
     DictLen(u8),
     DictKeys(u8, u8),
     DictInsert(u8, Txt, u8),
@@ -182,6 +185,7 @@ impl Op {
             ListPushOwn(l, i) => json!(["ListPushOwn", l, i]),
             ListSetOwn(l, i, j) => json!(["ListSetOwn", l, i, j]),
             DictInsertOwn(d, n, k) => json!(["DictInsertOwn", d, n, k.to_json()]),
+            DictInsertTwin(d, n, t) => json!(["DictInsertTwin", d, n, t]),
             DictGet(d, k, n) => json!(["DictGet", d, k.to_json(), n]),
             DictRemove(d, k) => json!(["DictRemove", d, k.to_json()]),
             GridLen(s) => json!(["GridLen", s]),
@@ -235,6 +239,7 @@ impl Op {
             "ListPushOwn" => ListPushOwn(u8_(1), u(2) as u16),
             "ListSetOwn" => ListSetOwn(u8_(1), u(2) as u16, u(3) as u16),
             "DictInsertOwn" => DictInsertOwn(u8_(1), u(2) as u16, t(3)),
+            "DictInsertTwin" => DictInsertTwin(u8_(1), u(2) as u16, u8_(3)),
             "DictLen" => DictLen(u8_(1)),
             "DictKeys" => DictKeys(u8_(1), u8_(2)),
             "DictInsert" => DictInsert(u8_(1), t(2), u8_(3)),
@@ -256,7 +261,7 @@ impl Op {
         })
     }
     pub fn is_container_mutation(&self) -> bool {
-        matches!(self, Op::ListPush(..) | Op::ListSet(..) | Op::ListRemove(..) | Op::DictInsert(..) | Op::DictRemove(..) | Op::ListPushOwn(..) | Op::ListSetOwn(..) | Op::DictInsertOwn(..))
+        matches!(self, Op::ListPush(..) | Op::ListSet(..) | Op::ListRemove(..) | Op::DictInsert(..) | Op::DictRemove(..) | Op::ListPushOwn(..) | Op::ListSetOwn(..) | Op::DictInsertOwn(..) | Op::DictInsertTwin(..))
     }
     pub fn is_container_read(&self) -> bool {
         matches!(self, Op::ListLen(_) | Op::ListGet(..) | Op::DictLen(_) | Op::DictKeys(..) | Op::DictGet(..) | Op::ToZinc(_) | Op::ToJson(_) | Op::GridFromRows(..))
@@ -335,7 +340,11 @@ fn doc_text() -> BoxedStrategy<Txt> {
             _ => format!("[\"{s}\", {s}"),
         })),
         2 => prop::sample::select(vec!["[1,2", "{a:", "ver:\"3.0\"\na\n1,2\n", "@", "{\"_kind\":\"nope\"}", "{\"_kind\":\"\\u0001\"}", "{\"_kind\":\"\\u0000\"}", "\u{1}", "5zz", "{\"_kind\":\"number\",\"val\":1,\"unit\":\"\\u0000\"}",
-            "{\"_kind\":\"xstr\",\"type\":\"Foo\",\"val\":\"a\\u0000b\"}", "Foo(\"a\\u0000b\")", "\"a\\u0000b\"", "@a \"x\\u0000y\"", "{\"_kind\":\"uri\",\"val\":\"a\\u0000\"}", "{\"_kind\":\"ref\",\"val\":\"a\",\"dis\":\"\\u0000\"}", "[\"\\u0000\", 23:59:60, 12:00:60.5]", "{\"_kind\":\"time\",\"val\":\"23:59:60.25\"}"]).prop_map(|s| Txt::S(s.to_string())),
+            "{\"_kind\":\"xstr\",\"type\":\"Foo\",\"val\":\"a\\u0000b\"}", "Foo(\"a\\u0000b\")", "\"a\\u0000b\"", "@a \"x\\u0000y\"", "{\"_kind\":\"uri\",\"val\":\"a\\u0000\"}", "{\"_kind\":\"ref\",\"val\":\"a\",\"dis\":\"\\u0000\"}", "[\"\\u0000\", 23:59:60, 12:00:60.5]",
+            "{\"_kind\":\"grid\",\"meta\":{\"ver\":\"3.0\"},\"cols\":[{\"name\":\"a\"}],\"rows\":[{\"a\":1,\"b\":2},{\"a\":{\"_kind\":\"marker\"},\"dis\":\"x\"}]}",
+            "{\"_kind\":\"grid\",\"cols\":[{\"name\":\"b\",\"meta\":{\"dis\":\"B\"}}],\"rows\":[{\"a\":1},{\"b\":1,\"id\":{\"_kind\":\"ref\",\"val\":\"r\"}}]}",
+            "{\"_kind\":\"grid\",\"cols\":[],\"rows\":[{\"a\":1}]}",
+            "\n42kW", "\r\n[1]", "\u{a0}1", "\u{c}T", "  \t 5", "\n", " ", "{\"_kind\":\"time\",\"val\":\"23:59:60.25\"}"]).prop_map(|s| Txt::S(s.to_string())),
         1 => txt(),
     ]
     .boxed()
@@ -380,6 +389,7 @@ pub fn op() -> BoxedStrategy<Op> {
         3 => (slot(), any::<u16>()).prop_map(|(l, i)| ListPushOwn(l, i)),
         1 => (slot(), any::<u16>(), any::<u16>()).prop_map(|(l, i, j)| ListSetOwn(l, i, j)),
         2 => (slot(), any::<u16>(), txt()).prop_map(|(d, n, k)| DictInsertOwn(d, n, k)),
+        3 => (slot(), any::<u16>(), 0u8..8).prop_map(|(d, n, t)| DictInsertTwin(d, n, t)),
         2 => slot().prop_map(DictLen),
         3 => (slot(), slot()).prop_map(|(d, r)| DictKeys(d, r)),
         5 => (slot(), txt(), slot()).prop_map(|(d, k, e)| DictInsert(d, k, e)),
@@ -450,6 +460,39 @@ fn take_cstr(p: *const c_char) -> Option<String> {
             c_api::str::haystack_string_destroy(p as *mut c_char);
             Some(s)
         }
+    }
+}
+
+/// a value that libhaystack's `==` cannot tell from `v` although it is a different value (None: `v` has no such twin)
+fn twin_of(v: &Value) -> Option<Value> {
+    match v {
+        Value::Ref(r) => Some(Value::Ref(Ref { value: r.value.clone(), dis: if r.dis.is_some() { None } else { Some("twin".into()) } })),
+        Value::DateTime(dt) => {
+            let p = project_dt(dt);
+            let other = if p.tz == "UTC" { "Asia/Tokyo" } else { "UTC" };
+            Some(build(&crate::gen::value::make_dt(other, p.secs, p.nanos)))
+        }
+        Value::List(l) => {
+            let mut out: Vec<Value> = l.iter().cloned().collect();
+            for x in out.iter_mut() {
+                if let Some(t) = twin_of(x) {
+                    *x = t;
+                    return Some(Value::make_list(out));
+                }
+            }
+            None
+        }
+        Value::Dict(d) => {
+            let mut out = d.clone();
+            for (_, x) in out.iter_mut() {
+                if let Some(t) = twin_of(x) {
+                    *x = t;
+                    return Some(Value::make_dict(out));
+                }
+            }
+            None
+        }
+        _ => None,
     }
 }
 
@@ -1026,6 +1069,29 @@ impl Machine {
                     }
                     v
                 }
+                DictInsertTwin(d, n, tmp) => {
+                    let d = &self.sel(*d, W::Dict);
+                    let entries: Vec<(String, Value)> = match self.m(*d) {
+                        Some(Value::Dict(x)) => x.iter().map(|(k, v)| (k.clone(), v.clone())).collect(),
+                        _ => vec![],
+                    };
+                    let twins: Vec<(String, Value)> = entries.iter().filter_map(|(k, v)| twin_of(v).map(|t| (k.clone(), t))).collect();
+                    if twins.is_empty() || (*tmp as usize % SLOTS) == (*d as usize % SLOTS) {
+                        return Verdict::Pass;
+                    }
+                    let (key, twin) = twins[idx(*n, twins.len())].clone();
+                    let Ok(ckey) = std::ffi::CString::new(key.clone()) else { return Verdict::Pass };
+                    let v = self.store(*tmp, Some(Box::new(twin.clone())), Some(twin.clone()), op);
+                    if v.is_fail() {
+                        return v;
+                    }
+                    let got = c_api::dict::haystack_value_insert_dict_entry(self.h(*d), ckey.as_ptr(), self.h(*tmp));
+                    if let Some(Value::Dict(dict)) = &mut self.model[*d as usize % SLOTS] {
+                        dict.insert(key, twin);
+                    }
+                    // (the snapshot after the call compares every handle with its model value field by field)
+                    self.expect_rt(got, Some(true), op)
+                }
                 DictInsertOwn(d, n, k) => {
                     let d = &self.sel(*d, W::Dict);
                     let keys: Vec<String> = match self.m(*d) {
@@ -1593,6 +1659,10 @@ pub fn run_sequence(ops: &[Op]) -> (Verdict, Machine) {
 // ---------------------------------------------------------------------------------------------
 // "the retrievable message is that of the latest failure" - checked without looking at wording:
 // the message read after [x (unread), y] must be the message read after [y] alone.
+
+pub fn failing_call_pub(k: u8) {
+    failing_call(k)
+}
 
 fn failing_call(k: u8) {
     unsafe {
